@@ -15,6 +15,7 @@ CONSTANTS
   SignalOnInsert = TRUE
   FirstSighting = TRUE
   SeedAtomic = TRUE
+  RegisterInThunk = TRUE
   L = 5
   Lmin = 5
   Extras = FALSE
